@@ -208,6 +208,11 @@ func c14Cases(tier string) []c14Case {
 		fsmodel.Node{Path: "m2/sub/z", Kind: fsmodel.Symlink, Perm: 0777, Mtime: T, Link: "/outside/f"},
 		fsmodel.Node{Path: "m3", Kind: fsmodel.Dir, Perm: 0755, Mtime: T}, fsmodel.Node{Path: "m3/sub", Kind: fsmodel.Dir, Perm: 0755, Mtime: T},
 		fsmodel.Node{Path: "m3/sub/z", Kind: fsmodel.File, Perm: 0640, Mtime: T + 7, Data: []byte("SRC:z"), HL: 1})
+	// ... and the same with different final names: the second name of the inode is linked to a destination path
+	// that a link to an outside file has taken over in between
+	merge = append(merge, fsmodel.Node{Path: "m1/sub/h1", Kind: fsmodel.File, Perm: 0600, Mtime: T + 8, Data: []byte("SRC:h"), HL: 2},
+		fsmodel.Node{Path: "m2/sub/h1", Kind: fsmodel.Symlink, Perm: 0777, Mtime: T, Link: "/outside/f"},
+		fsmodel.Node{Path: "m3/sub/h2", Kind: fsmodel.File, Perm: 0600, Mtime: T + 8, Data: []byte("SRC:h"), HL: 2})
 	merge.Sort()
 	srcV = append(srcV, merge)
 	srcArgs := []string{"/", "a", "a/f", "b", "*", "a/*", "l", "l/f", "c", "?", "a/..", "c/../a/..", "a/../../b", "l/a/f", "l/a", "l/a/*", "m?", "m?/sub", "*/sub", "..", "../.", "a/../..", "../b"}
